@@ -187,6 +187,17 @@ def run(ck: Check):
                     raise trmod.subprocess.TimeoutExpired("x", timeout)
                 return b"", b""
 
+            def wait(self, timeout=None):
+                if self.hang and not self.killed:
+                    raise trmod.subprocess.TimeoutExpired("x", timeout)
+                return self.returncode
+
+            def poll(self):
+                return None if (self.hang and not self.killed) else self.returncode
+
+            def terminate(self):
+                self.killed = True
+
             def kill(self):
                 self.killed = True
 
@@ -198,7 +209,13 @@ def run(ck: Check):
                 for hang in (False, True):
                     fake = FakeChild(rc, hang)
                     trmod.subprocess.Popen = lambda *a, **k: fake
-                    rd = timed_run([PY, "-c", "pass"], 1, None)
+                    try:
+                        rd = timed_run([PY, "-c", "pass"], 1, None)
+                    except BaseException as exc:  # pylint: disable=broad-except
+                        ck.count("chain")
+                        ck.violation(f"status chain: returncode {rc} hang={hang}: timed_run raised {type(exc).__name__}: {exc}",
+                                     {"returncode": rc, "hang": hang})
+                        continue
                     ck.count("chain")
                     want = want_status(hang, rc)
                     wrc = None if hang else rc
